@@ -574,6 +574,31 @@ def run_C10(tier, rng, chk):
         hist.append(("c10_hist_%d" % i, L))
     out = chk.run_stream(hist, prop="C10")
     res.append(fam("histories(AF pools sharing bitmap bytes, both check modes, corrected blocks with permissive text thresholds)", hist, out, owned_keys=["af"]))
+    # the same pair immediately before and after a reset, and the same pair repeated: "since the last
+    # reset" must not depend on what was received before it
+    rep = []
+    for i in range(scale(tier, 60, 400)):
+        ext = rng.random() < 0.4
+        L = ["0 I %d" % rng.choice([0, 255]), "0 R 7 %d" % rng.randrange(1, 4)]
+        if ext:
+            L.append("0 X 1")
+        for _ in range(scale(tier, 12, 20)):
+            c = (rng.choice([1, 2, 9, 144, 204, rng.randrange(1, 205)]) << 8) | rng.choice([1, 3, 10, 145, 204, 205, 0, rng.randrange(256)])
+            g = P(0, rng.choice([0x1000, 0x2000]), mkB(0, 0, 0, 0, rng.randrange(32)), c, 0x2020)
+            for _ in range(rng.choice([1, 2, 2, 3])):
+                L.append(g)
+            if rng.random() < 0.3:
+                L.append(P(0, 0x1000, mkB(rng.choice([2, 1, 0]), rng.randrange(2)), rng.randrange(65536), 0x4142))
+            x = rng.random()
+            if x < 0.6:
+                L.append("0 C")
+            elif x < 0.75:
+                L += ["0 I %d" % rng.choice([0, 255]), "0 R 7 %d" % rng.randrange(1, 4)] + (["0 X 1"] if ext else [])
+            for _ in range(rng.choice([1, 2, 2])):
+                L.append(g)
+        rep.append(("c10_rep_%d" % i, L))
+    out = chk.run_stream(rep, prop="C10")
+    res.append(fam("repetition(the same AF pair once / twice / three times, then a reset, then the same pair again; both check modes)", rep, out, owned_keys=["af"]))
     return res
 
 
